@@ -127,7 +127,7 @@ func (s *State) HavocAll() *State {
 // Havoc forgets the named components.
 func (s *State) Havoc(names []string, tag string) {
 	for _, n := range names {
-		if n == "next" {
+		if n == "next" || strings.HasPrefix(n, "alloc:") {
 			continue
 		}
 		srt, ok := allSorts.get(n)
